@@ -280,6 +280,31 @@ Definition orso_to_arrow_schema (use_ids : bool) (cols : list (list N * column))
 (* convert_arrow_schema_to_orso_schema / the schema from_arrow derives from the first table *)
 Definition arrow_to_orso_schema (fs : list afield) : result (list column) := mapM (from_arrow_field false) fs.
 
+(* ---------- the class of columns the typing clause of the property quantifies over ---------- *)
+Definition all_types : list N := map fst c11_type_names.
+
+(* the two types deliberately carried as binary, and the untyped placeholder *)
+Definition excluded (t : N) : bool := ((t =? ty_STRUCT) || (t =? ty_JSONB) || (t =? ty_MISSING_TYPE))%N.
+
+Definition is_none {A : Type} (o : option A) : bool := match o with None => true | Some _ => false end.
+
+(* a column of a member type that is not excluded; ARRAY with an element type from_name accepts (not excluded);
+   DECIMAL(p, s) with 1 <= p <= 38, 0 <= s <= p; every other type without element type, precision, scale *)
+Definition roundtrippable (c : column) : bool :=
+  existsb (N.eqb (ctype c)) all_types && negb (excluded (ctype c)) &&
+  (if (ctype c =? ty_ARRAY)%N then
+     match celem c with
+     | Some e => existsb (N.eqb e) accepted_elems && negb (excluded e)
+     | None => false
+     end && is_none (cprec c) && is_none (cscale c)
+   else if (ctype c =? ty_DECIMAL)%N then
+     is_none (celem c) &&
+     match cprec c, cscale c with
+     | Some p, Some s => ((1 <=? p) && (p <=? 38) && (0 <=? s) && (s <=? p))%Z
+     | _, _ => false
+     end
+   else is_none (celem c) && is_none (cprec c) && is_none (cscale c)).
+
 (* ====================================================================================== *)
 (* comparison functions used by the correspondence files                                    *)
 (* ====================================================================================== *)
@@ -438,10 +463,34 @@ Definition c11_show_o2a (c : column * result afield * result column) :=
   let '(col, f, back) := c in
   (arrow_field col, match f with Ok fl => from_arrow_field false fl | Raise e => Raise e end).
 
+(* the typing clause itself, on what the implementation returned: a roundtrippable column comes back with the
+   same type, element type, precision, scale and name (nullability is the Arrow field's) *)
+Definition came_back_named (nm : list N) (col : column) (f : result afield) (back : result column) : bool :=
+  if roundtrippable col then
+    match f, back with
+    | Ok fl, Ok b => listN_eqb (fname fl) nm &&
+                     column_eqb b (mkCol nm (ctype col) (celem col) (cprec col) (cscale col) (fnullable fl))
+    | _, _ => false
+    end
+  else true.
+
+Definition came_back (col : column) (f : result afield) (back : result column) : bool :=
+  came_back_named (cname col) col f back.
+
+(* the same, column by column, for the schema-level converters (fields named after identities if asked) *)
+Fixpoint came_back_all (use_ids : bool) (cols : list (list N * column)) (fs : list afield) (bs : list column) : bool :=
+  match cols, fs, bs with
+  | [], [], [] => true
+  | ic :: cols', f :: fs', b :: bs' =>
+      came_back_named (if use_ids then fst ic else cname (snd ic)) (snd ic) (Ok f) (Ok b) && came_back_all use_ids cols' fs' bs'
+  | _, _, _ => false
+  end.
+
 Definition c11_check_o2a (c : column * result afield * result column) : bool :=
   let '(col, f, back) := c in
   result_eqb afield_eqb (arrow_field col) f
-  && match f with Ok fl => result_eqb column_eqb (from_arrow_field false fl) back | Raise _ => true end.
+  && match f with Ok fl => result_eqb column_eqb (from_arrow_field false fl) back | Raise _ => true end
+  && came_back col f back.
 
 Definition c11_show_a2o (c : bool * afield * result column) :=
   let '(mab, f, col) := c in from_arrow_field mab f.
@@ -458,7 +507,11 @@ Definition c11_show_schema (c : schema_case) :=
 Definition c11_check_schema (c : schema_case) : bool :=
   let '(ids, cols, fs, back) := c in
   result_eqb (list_eqb afield_eqb) (orso_to_arrow_schema ids cols) fs
-  && match fs with Ok l => result_eqb (list_eqb column_eqb) (arrow_to_orso_schema l) back | Raise _ => true end.
+  && match fs with Ok l => result_eqb (list_eqb column_eqb) (arrow_to_orso_schema l) back | Raise _ => true end
+  && match fs, back with
+     | Ok l, Ok bs => came_back_all ids cols l bs
+     | _, _ => negb (existsb (fun ic => roundtrippable (snd ic)) cols)
+     end.
 
 Definition batch_case : Type := list (list cell) * list (list (list cell)).
 Definition o2a_case : Type := column * result afield * result column.
